@@ -93,7 +93,10 @@ def t1(P, out):
     bad, n = [], 0
     layouts = [(a, b) for a in itertools.product(KINDS, repeat=2) for b in itertools.product(KINDS, repeat=2)]
     layouts += [((), b) for b in itertools.product(KINDS, repeat=2)] + [(a, None) for a in itertools.product(KINDS, repeat=2)]
-    for pre, body in layouts:
+    # the main-loop header as Python accepts it: trailing comment, blanks before the colon / at the end, parenthesised condition
+    HEADERS = ["while True:", "while True:  # main loop", "while True:# forever", "while True :", "while True:   ", "while (True):", "while(True):", "while  True:"]
+    layouts = [(pre, body, "while True:") for pre, body in layouts] + [(pre, body, h) for h in HEADERS[1:] for pre, body in layouts[:256:37] + layouts[256:272:5]]
+    for pre, body, header in layouts:
         lines, want_pre, want_body, k = ["mon = SerialMonitor(9600)", "c = 1"], [], [], 0
         for kind in pre:
             ls, ms = block(kind, k)
@@ -101,7 +104,7 @@ def t1(P, out):
             want_pre += ms
             k += 1
         if body is not None:
-            lines.append("while True:")
+            lines.append(header)
             for kind in body:
                 ls, ms = block(kind, k)
                 lines += ["    " + l for l in ls]
@@ -112,11 +115,11 @@ def t1(P, out):
         try:
             prog = P.parse(src)
         except Exception as ex:
-            bad.append({"layout": [pre, body], "error": f"{type(ex).__name__}: {ex}"})
+            bad.append({"layout": [pre, body], "header": header, "error": f"{type(ex).__name__}: {ex}"})
             continue
         got_pre, got_body = markers_of(prog.setup_body), markers_of(prog.loop_body)
         if got_pre != want_pre or got_body != want_body:
-            bad.append({"layout": [pre, body], "setup_markers": got_pre, "expected_setup": want_pre, "loop_markers": got_body,
+            bad.append({"layout": [pre, body], "header": header, "setup_markers": got_pre, "expected_setup": want_pre, "loop_markers": got_body,
                         "expected_loop": want_body, "script": src})
     out.append({"name": "C05/T1/split-order-exactly-once", "status": "discharged" if not bad else "sat", "backend": "enum",
                 "where": f"{n} marker layouts: prologue markers appear once, in order, in setup_body; body markers once, in order, in loop_body",
@@ -173,6 +176,13 @@ def scenarios():
     for kind, (d1, d2, use, oldp, newp) in REBIND.items():
         out[f"{kind}/rebound-other-pins-at-top-of-loop"] = f"mon = SerialMonitor(9600)\n{d1}\n{use}\nwhile True:\n    {d2}\n    {use}\n    sleep(5)\n"
         REBOUND_PINS[f"{kind}/rebound-other-pins-at-top-of-loop"] = (oldp, newp)
+    # pins that are run-time values: a global with a non-literal initialiser is assigned in setup(); the device must be configured after that
+    COMPUTED = {"Led": ("base = 2\npin = base + 3\nd = Led(pin)", "d.on()"), "Buzzer": ("base = 4\npin = base * 2\nd = Buzzer(pin)", "d.play_tone(440)"),
+                "Servo": ("base = 3\npin = base + 3\nd = Servo(pin)", "d.write(90)"), "Button": ("base = 2\npin = base + 2\nd = Button(pin)", "mon.write(d.is_pressed())"),
+                "Led-from-list": ("pins = [5, 6]\nk = 1\npin = pins[k]\nd = Led(pin)", "d.on()")}
+    for kind, (decl, use) in COMPUTED.items():
+        out[f"{kind}/computed-pin/use-in-loop"] = f"mon = SerialMonitor(9600)\n{decl}\nwhile True:\n    {use}\n    sleep(5)\n"
+        out[f"{kind}/computed-pin/use-in-setup"] = f"mon = SerialMonitor(9600)\n{decl}\n{use}\nwhile True:\n    sleep(5)\n"
     out["Led+Button/same-script"] = "mon = SerialMonitor(9600)\nl = Led(13)\nb = Button(4)\nwhile True:\n    if b.is_pressed():\n        l.on()\n    else:\n        l.off()\n    sleep(5)\n"
     out["Led+Potentiometer+Servo"] = ("mon = SerialMonitor(9600)\nl = Led(13)\np = Potentiometer('A1')\ns = Servo(6)\nwhile True:\n    v = p.read()\n    s.write(v / 6)\n"
                                       "    l.set_brightness(v / 4)\n    mon.write(v)\n    sleep(5)\n")
